@@ -76,13 +76,13 @@ def cxx_ob(pid, oid, wrapper, entry, what, bounds, functions, unwind=2, unwindse
         # LLVM hoists address computations above the branches that guard their use (legal: an out-of-range
         # `getelementptr inbounds` is poison, not UB, until dereferenced), so CBMC's check on pointer ARITHMETIC
         # raises alarms no sanitizer confirms; dereferences stay checked (--pointer-check, --bounds-check).
-        c = cbmc_cmd([cfile], "F_" + entry, uw, [], [STUBS], unwind=unwind, extra=ex, no_checks=("--pointer-overflow-check",))
+        c = cbmc_cmd([cfile], "vf_main_" + entry, uw, [], [STUBS], unwind=unwind, extra=ex, no_checks=("--pointer-overflow-check",))
         rt = os.path.join(ROOT, "harness", "c", "native_rt.c")
         native = dict(cc="g++", flags=["-std=c++17", "-DUSE_ZLIB", "-x", "c++"],
                       files=[os.path.join(HX, wrapper), os.path.join(HX, "vf_native.cc"), rt],
                       defines=list(defines) + ["harness=" + entry, "VF_CXX_MAIN=1"],
                       includes=[os.path.join(REPO, "dfs"), HX], libs=[dfs_lib(), "-lz", "-Wl,--allow-multiple-definition"])
-        gen_native = dict(cc="gcc", flags=[], files=[cfile, rt], defines=["harness=F_" + entry], includes=[STUBS])
+        gen_native = dict(cc="gcc", flags=[], files=[cfile, rt], defines=["harness=vf_main_" + entry], includes=[STUBS])
         return dict(cmd=c, native=native, gen_native=gen_native, entry=entry)
     return Obligation(full, what, bounds, functions, build, weight_gb=weight_gb, timeout=timeout,
                       stubs=["IR->C translation by tools/ir2c.py (validated differentially each run)"] + list(stubs)
